@@ -88,12 +88,19 @@ type Env struct {
 	FailedK  string // key of the expression that was failed ("Text.f")
 	Fired    string // "expr" | "nested" | ""
 	Hook     func(kind, key string)
-	Trace    []string
+	Static   bool // shared between tasks: no counters, no faults
+	// C12: universe of scripts/css, node extensions, and the log of rendered uses.
+	C12  *c12u
+	Ext  map[*Node]*nodeExt
+	Uses []useRec
 }
 
 func newEnv(u *Universe) *Env { return &Env{U: u, FailAt: -1, CancelAt: -1} }
 
 func (e *Env) point(kind, key string) bool {
+	if e.Static {
+		return false
+	}
 	i := e.points
 	e.points++
 	if e.Hook != nil {
@@ -253,11 +260,25 @@ func (e *Env) Build(n *Node) templ.Component {
 	case "block":
 		return corpus.Block(n.S)
 	case "oncebody":
-		return corpus.OnceBody(e.U.Onces[n.N%len(e.U.Onces)], e.kid(n, 0))
+		h := n.N % len(e.U.Onces)
+		c := corpus.OnceBody(e.U.Onces[h], e.kid(n, 0))
+		if e.C12 != nil {
+			return e.counted(useRec{Kind: "oncebody", Handle: h}, c)
+		}
+		return c
 	case "oncemark":
-		return corpus.OnceMark(e.U.Onces[n.N%len(e.U.Onces)], n.S)
-	case "oncewith": // hand-written use of a handle with a fixed component
-		return e.U.Onces[n.N%len(e.U.Onces)].Once()
+		h := n.N % len(e.U.Onces)
+		c := corpus.OnceMark(e.U.Onces[h], n.S)
+		if e.C12 != nil {
+			return e.counted(useRec{Kind: "oncemark", Handle: h, Marker: n.S}, c)
+		}
+		return c
+	case "oncewith": // block-less use of a handle created WithComponent
+		h := n.N % len(e.U.Onces)
+		if e.C12 == nil || !e.C12.OnceWith[h] {
+			return corpus.Lit()
+		}
+		return e.counted(useRec{Kind: "oncewith", Handle: h}, e.U.Onces[h].Once())
 	case "flush":
 		return corpus.FlushBlock(e.kid(n, 0))
 	case "join":
